@@ -126,8 +126,10 @@ def global_state():
     cache = getattr(pc, "_fftw_cache", None)
     if cache is not None:
         for k in getattr(cache, "_cache_dict", {}):
-            keys.append(repr(tuple(x for x in k if not (isinstance(x, int) and abs(x) > 10**6))))
-    st["fftw_plans"] = sorted(keys)
+            # keep (function, shape, strides, dtype, planner flags); drop addresses, hashes and the
+            # input buffer's byte alignment (it depends on where malloc happened to place the array)
+            keys.append(repr(tuple(x for x in k if not isinstance(x, int))))
+    st["fftw_plans"] = sorted(set(keys))  # plans differing only in buffer alignment are one plan
     mods = {}
     for mname, mod in sorted(sys.modules.items()):
         if not (mname == "bldfm" or mname.startswith("bldfm.")) or mod is None:
